@@ -12,13 +12,13 @@ Section Dispatch.
   Lemma dispatch_none : cerror c = ENone -> snd (fst error_run) = inl (XViolation (cid c)).
   Proof.
     unfold error_run, create_violation_error. intros ->.
-    destruct (clambda c && _); [destruct (select _ _ _)|]; reflexivity.
+    destruct (clambda c); [destruct (select _ _ _)|]; reflexivity.
   Qed.
 
   Lemma dispatch_class k : cerror c = EClass k -> snd (fst error_run) = inl (XClass k (cid c)).
   Proof.
     unfold error_run, create_violation_error. intros ->.
-    destruct (clambda c && _); [destruct (select _ _ _)|]; reflexivity.
+    destruct (clambda c); [destruct (select _ _ _)|]; reflexivity.
   Qed.
 
   Lemma dispatch_instance t : cerror c = EInstance t -> error_run = ([], inl (XObj t), st).
